@@ -219,20 +219,42 @@ def rule_cli(rep, crate):
         if pushes:
             rep.viol(rid, 'cli:extra-output', 'codegen adds further text to the output (%s)' % pushes, loc(f))
     rid = rep.rule('M-C17d', '--check never writes and succeeds iff unchanged: every file-system modification in main is dominated by the false edge of args.check and depends on the comparison with the existing file; on the true edge of args.check only an error is returned', floor=2)
-    m = crate.fns.get('main')
-    if not rep.anchor(rid, 'fn logos_cli::main', m is not None):
+    main = crate.fns.get('main')
+    if not rep.anchor(rid, 'fn logos_cli::main', main is not None):
         return
+    # the function that decides between writing and checking: the one that compares with the existing file (main itself,
+    # or a private helper main hands `args.check` to)
+    m = main
+    check_param = None
+    if not find_calls(main, r'^eq_ignore_newlines$'):
+        for f in crate.reachable_fns([main]).values():
+            if f.name != 'main' and find_calls(f, r'^eq_ignore_newlines$'):
+                m = f
+        for b, t in main.calls():
+            if main.callee_name(t) == m.name:
+                for i, a in enumerate(t['args']):
+                    if desc(main, a).endswith('.check'):
+                        check_param = i + 1
     checks = []
     for sb in switches(m):
         c = cond_of_switch(m, sb)
-        if c and c['root'][0] == 'place' and fields_of(c['root'][1])[-1:] == ['check'] and 'Args' in m.locals[c['root'][1]['local']]:
+        if not c:
+            continue
+        if c['root'][0] == 'place' and fields_of(c['root'][1])[-1:] == ['check'] and 'Args' in m.locals[c['root'][1]['local']]:
             checks.append(c)
-    if not rep.anchor(rid, 'branch on args.check in main', bool(checks)):
-        return
+        elif check_param is not None and c['root'][0] == 'param' and c['root'][1] == check_param:
+            checks.append(c)
     mods = [(b, t) for b, t in m.calls() if FS_MODIFY.search(m.callee_name(t))]
     rep.inst(rid, 'main:fs-modifications', detail=[m.callee_name(t) for _b, t in mods])
     if not mods:
         rep.viol(rid, 'cli:no-write', 'main never writes the output file', loc(m))
+    # no other function of the CLI touches the file system for writing
+    for f in crate.fns.values():
+        if f.name == m.name:
+            continue
+        for b, t in f.calls():
+            if re.search(r'^(fs_err|std::fs)::', f.callee_name(t)) and FS_MODIFY.search(f.callee_name(t)):
+                rep.viol(rid, 'cli:write-elsewhere:%s' % f.name, '%s modifies the file system (%s) outside the write/check decision' % (f.name, f.callee_name(t)), loc(f, t['line']))
     for b, t in mods:
         if not any(m.edge_dominates((c['bb'], c['f']), b) for c in checks):
             rep.viol(rid, 'cli:write-in-check:%s' % m.callee_name(t).split('::')[-1], '%s is reachable with --check: check mode may modify the file' % m.callee_name(t), loc(m, t['line']))
